@@ -55,6 +55,9 @@ def check_program(h, m, ctor, arr, hits, out, fops='', getdel=None):
     if r.startswith('ERR'):
         out.append(Violation('build-failed', r.split()[1] if len(r.split()) > 1 else 'err', 'construction API refused a well-typed program: %s' % r, case))
         return
+    acc = None
+    if ' acc=' in r:
+        r, acc = r.split(' acc=', 1)
     kv = parse_kv(r)
     b1 = bytes.fromhex(kv['bytes'])
     if ctor == 's' and m.mtype == R.MT_SIGNAL and not fops:
@@ -79,6 +82,10 @@ def check_program(h, m, ctor, arr, hits, out, fops='', getdel=None):
     got = R.canon_msg(ref[1])
     if got != want:
         out.append(Violation('serialisation-differs', 'values', 'marshalled bytes decode to different values\n want: %s\n got : %s' % (want, got), dict(case, bytes=b1.hex())))
+        return
+    # the accessors of the message object that was built must say the same as its bytes
+    if acc is not None and acc != re.sub(r'h:\d+', 'h:?', want):
+        out.append(Violation('accessors-disagree-with-bytes', 'built-message', 'the accessors of the built message disagree with its serialisation\n accessors: %s\n bytes    : %s' % (acc, want), dict(case, bytes=b1.hex())))
         return
     # copy
     if kv.get('copyserial') != '0':
